@@ -511,8 +511,28 @@ def rule_gate(c: Ctx) -> RuleResult:
     # is_code_block
     f = c.p.func("rules_block/state_block.py:StateBlock.is_code_block")
     rets = [n for n in own_nodes(f.node) if isinstance(n, ast.Return) and n.value is not None]
-    ok = bool(rets) and all(isinstance(x.value, ast.BoolOp) and isinstance(x.value.op, ast.And) and any(U(v) == "self._code_enabled" for v in x.value.values)
-                            for x in rets)
+    from ..boolsim import simulate_return
+    # with the code rule off the function must return False whatever the indentation comparison says
+    ok = True
+    for cmp_val in (True, False):
+        def atom(e: ast.AST, cmp_val=cmp_val):
+            if U(e) == "self._code_enabled":
+                return False
+            if isinstance(e, ast.Compare):
+                return cmp_val
+            return None
+        val, how = simulate_return(c.cfg(f), atom)
+        if how != "ret" or val is not False:
+            ok = False
+    # and with the rule on it must not be constant
+    def atom_on(e: ast.AST):
+        if U(e) == "self._code_enabled":
+            return True
+        if isinstance(e, ast.Compare):
+            return True
+        return None
+    val_on, _ = simulate_return(c.cfg(f), atom_on)
+    ok = ok and val_on is True
     init = c.p.func("rules_block/state_block.py:StateBlock.__init__")
     src = [n for n in own_nodes(init.node) if isinstance(n, ast.Assign) and U(n.targets[0]) == "self._code_enabled"]
     ok2 = bool(src) and "get_active_rules" in U(src[0].value) and "'code'" in U(src[0].value) and "block" in U(src[0].value)
